@@ -191,10 +191,22 @@ def part_seed(run, be, count):
         crng = random.Random(f"{run.seed}:seed:{i}")
         n = crng.randint(1, 3)
         regs = random_registers(crng, n)
-        execs = [dyadic_state(crng, n) + (crng.randint(2, 12),) for _ in range(crng.randint(1, 2))]
+        # special seed values in EVERY run (0 is falsy, 1, the largest value numpy accepts), then random ones
+        special = {0: 0, 1: 1, 2: 2 ** 32 - 1, 3: 0, 4: 0}.get(i)
+        if special is not None and n < 2:      # one qubit has no dyadic superposition with exact probabilities
+            n = 2
+            regs = random_registers(crng, n)
+        execs = []
+        for _ in range(crng.randint(1, 2)):
+            st = dyadic_state(crng, n)
+            while special is not None and sum(1 for a in st[0] if a != 0) < 2:
+                st = dyadic_state(crng, n)      # outcomes must be random, or a missing re-seed is invisible
+            execs.append(st + (crng.randint(10 if special is not None else 2, 12),))
         script = [(crng.choice(["samples", "freqs"]), crng.randrange(len(execs)), crng.random() < 0.5, crng.random() < 0.5)
                   for _ in range(crng.randint(1, 4))]
-        seed = crng.randrange(2 ** 31)
+        if special is not None:
+            script.append(("samples", 0, False, False))
+        seed = crng.randrange(2 ** 31) if special is None else special
         # two fresh circuit objects, different generator states before seeding
         np.random.random(crng.randint(1, 5))
         _, o1 = seeded_run(be, n, regs, execs, script, seed)
@@ -228,12 +240,8 @@ def part_seed(run, be, count):
             if any(not f.key.startswith(SHARED_KEY) for f in run.findings[before:]):
                 ok = False
             if differs:
-                if shared:
-                    run.find(f"{SHARED_KEY}:seed_rerun", "re-running with the same seed on the same circuit object returns other frequencies "
-                             "because the new result reads the samples cached by an earlier result", dict(info, history=hr.log))
-                else:
-                    ok = False
-                    run.find("seed:same_circuit_rerun", "re-running the same operations with the same seed on the same circuit object gives different samples/frequencies", info)
+                ok = False
+                run.find("seed:same_circuit_rerun", "re-running the same operations with the same seed on the same circuit object gives different samples/frequencies", info)
     run.oblige("test:same_seed_same_samples_on_fresh_circuits", ok, "test")
 
 
